@@ -1,3 +1,46 @@
+#![allow(dead_code)]
+mod driver;
+mod engine;
+mod gen;
+mod oracle;
+mod run;
+mod scen;
+mod spec;
+mod util;
+
+use run::Tier;
+use std::path::Path;
+
+fn usage() -> i32 {
+    eprintln!("usage: simcheck check <ID> quick|thorough | replay <file> | worker ... | list");
+    2
+}
+
 fn main() {
-    println!("skeleton");
+    let args: Vec<String> = std::env::args().collect();
+    let code = match args.get(1).map(String::as_str) {
+        Some("check") if args.len() >= 4 => {
+            let tier = if args[3] == "thorough" { Tier::Thorough } else { Tier::Quick };
+            driver::check_main(&args[2], tier)
+        }
+        Some("worker") if args.len() >= 7 => {
+            let tier = if args[3] == "thorough" { Tier::Thorough } else { Tier::Quick };
+            driver::worker_main(
+                &args[2],
+                tier,
+                args[4].parse().unwrap_or(0),
+                args[5].parse().unwrap_or(1),
+                Path::new(&args[6]),
+            )
+        }
+        Some("replay") if args.len() >= 3 => driver::replay_main(Path::new(&args[2])),
+        Some("list") => {
+            for id in spec::all_property_ids() {
+                println!("{id}");
+            }
+            0
+        }
+        _ => usage(),
+    };
+    std::process::exit(code);
 }
